@@ -308,8 +308,8 @@ def subchecks(tier):
     if tier == "quick":
         return [Sub("scenarios", _scenarios(350, 4), shards=13, weight=4),
                 Sub("long_streams", _long_streams(120), shards=3, weight=1)]
-    return [Sub("scenarios", _scenarios(4000, 12), shards=16, weight=4),
-            Sub("long_streams", _long_streams(2000), shards=16, weight=1)]
+    return [Sub("scenarios", _scenarios(14000, 12), shards=16, weight=4),
+            Sub("long_streams", _long_streams(6000), shards=16, weight=1)]
 
 
 def replay(case):
